@@ -339,7 +339,25 @@ def run(ctx):
                     ov.clear()
                     hist.append("clear")
                     continue
-                if c < 0.2:
+                if c < 0.18:
+                    # the variable is edited between two defuzzifications: a value assigned while lock-range is off and the lock
+                    # switched on afterwards, or the range narrowed around the value it holds - the held value is what it is
+                    edit = rnd.choice(["value then lock", "narrow range", "toggle lock-previous", "default"])
+                    if edit == "value then lock":
+                        was = ov.lock_range
+                        ov.lock_range = False
+                        ov.value = rnd.choice([(hi if math.isfinite(hi) else 3.0) + 2.0, (lo if math.isfinite(lo) else -3.0) - 2.0, np.array([0.25, (hi if math.isfinite(hi) else 3.0) + 1.0])])
+                        ov.lock_range = rnd.choice([True, was])
+                    elif edit == "narrow range" and math.isfinite(lo) and math.isfinite(hi):
+                        ov.maximum = lo + 0.5 * (hi - lo)
+                    elif edit == "toggle lock-previous":
+                        ov.lock_previous = not ov.lock_previous
+                    else:
+                        ov.default_value = rnd.choice([nan, lo if math.isfinite(lo) else 0.0, (hi if math.isfinite(hi) else 1.0) + 1.0])
+                    ctx.hit("event:variable edited between defuzzifications")
+                    hist.append("edit:" + edit)
+                    continue
+                if c < 0.26:
                     d.queue = [RuntimeError("injected")]
                     hist.append("fail")
                 else:
@@ -354,13 +372,60 @@ def run(ctx):
                     pass
             if i < 2:
                 ctx.sample("random", {"setting": cfg, "range": [lo, hi], "default": default, "history": hist})
+        # two output variables that were handed one and the same array as their value: what one of them does with its own
+        # value on defuzzification does not reach the other
+        for i, rnd in ctx.cases("shared start value", ctx.scale(60, 3000)):
+            cfg = rnd.choice(cfgs)
+            n = rnd.choice([1, 3, 6])
+            start = np.array([rnd.choice([0.5, 0.25, nan]) for _ in range(n)])
+            pair = []
+            for name in ("left", "right"):
+                d = Scripted()
+                ov = OV(name, minimum=0.0, maximum=10.0, lock_previous=cfg[0], default_value=cfg[1], lock_range=False, defuzzifier=d)
+                ov.value = start
+                pair.append((ov, d))
+            for k, (ov, d) in enumerate(pair):
+                other = pair[1 - k][0]
+                held = np.array(other.value, dtype=float, copy=True)
+                d.queue = [np.array([rnd.choice([nan, nan, 8.0, 2.0, rnd.uniform(0, 10)]) for _ in range(n)])]
+                try:
+                    ov.defuzzify()
+                except Exception:
+                    pass
+                now = np.asarray(other.value, dtype=float)
+                ctx.evaluated()
+                if now.shape != held.shape or not bool(np.all((now == held) | ((now != now) & (held != held)))):
+                    ctx.violation("defuzzifying one output variable changes the value another variable holds (the value array is written into instead of replaced)", {"rows": n, "setting": list(cfg)}, held, now)
+            ctx.hit("event:two variables given the same array as value")
+        # batches of several thousand rows with long runs of NaN (block-wise forward fill)
+        for i, rnd in ctx.cases("large batch", ctx.scale(6, 120)):
+            cfg = cfgs[6 + i % 6] if i % 3 else cfgs[i % 6]  # mostly with lock-previous on
+            n = rnd.choice([4097, 5000, 8193, 10000]) if not ctx.thorough else rnd.choice([4097, 5000, 8193, 10000, 16500, 33000, 70000])
+            d = Scripted()
+            ov = OV("o", minimum=0.0, maximum=4.0, lock_previous=cfg[0], default_value=cfg[1], lock_range=cfg[2], defuzzifier=d)
+            vals = np.random.default_rng(rnd.randrange(10**6)).random(n) * 5.0
+            for _ in range(rnd.randint(1, 4)):
+                a = rnd.randrange(0, n)
+                vals[a : a + rnd.choice([3, 700, 1200, 4096, 5000])] = nan
+            for k in (4095, 4096, 8191, 8192):
+                if k < n and rnd.random() < 0.7:
+                    vals[max(0, k - rnd.randrange(1, 600)) : k + rnd.randrange(1, 600)] = nan
+            if rnd.random() < 0.3:
+                vals[: rnd.randrange(1, 50)] = nan
+            d.queue = [np.array([1.5]), vals]
+            for _ in range(2):
+                try:
+                    ov.defuzzify()
+                except Exception:
+                    pass
+            ctx.hit("workload:large batch")
         # real engines: rules that fire for no row => NaN from the real defuzzifiers
         real_engines(ctx, fl)
         probe.report(ctx)
         reach.report(ctx)
     ctx.exhaustive = True
     ctx.extra["exhaustive_space"] = f"4^n sequences (n<=3 fully, n<={L} with sampled forms/faults) x 2^(n-1) splits x 12 settings x 4 result forms x failure at each call x clear"
-    ctx.require("event:Engine.process observed", "event:processed with an empty fuzzy output")
+    ctx.require("event:Engine.process observed", "event:processed with an empty fuzzy output", "event:variable edited between defuzzifications", "event:two variables given the same array as value", "workload:large batch")
     ctx.require("hook:OutputVariable.defuzzify", "hook:OutputVariable.clear", "event:defuzzified:batch", "event:defuzzified:scalar", "event:defuzzifier_raised", "event:disabled", "event:clear", "piece:clipped", "piece:kept", "range:left-open", "range:right-open", "range:unbounded", "default:infinite", "law:defuzzifier result left untouched")
     for lp in (0, 1):
         for d in ("nan", "in", "out"):
